@@ -359,7 +359,7 @@ impl Prop for C02 {
         true
     }
     fn random_cases(tier: Tier) -> u64 {
-        if tier == Tier::Quick { 60_000 } else { 3_000_000 }
+        if tier == Tier::Quick { 500_000 } else { 8_000_000 }
     }
     fn execute(k: &AccessCase, ctx: &mut Ctx) -> Verdict {
         exec_access(k, ctx)
@@ -707,7 +707,7 @@ impl Prop for C03 {
         !k.chain.is_empty()
     }
     fn random_cases(tier: Tier) -> u64 {
-        if tier == Tier::Quick { 60_000 } else { 2_000_000 }
+        if tier == Tier::Quick { 500_000 } else { 8_000_000 }
     }
     fn execute(k: &WindowCase, ctx: &mut Ctx) -> Verdict {
         exec_window(k, ctx)
